@@ -18,6 +18,8 @@ from .pymsg import Violation, _msgkey
 STEP_A, STEP_B = 1500000, 3000         # line events: A + B * total input characters (worst valid compile seen:
                                        # 417k events for 375 characters, most of it ply table construction)
 
+CPU_BUDGET_S = 40                      # process CPU seconds for one compile (a valid one needs < 0.5 s under the tracer)
+
 INTERNAL = (ValueError, KeyError, AttributeError, TypeError, IndexError, AssertionError, RecursionError)
 GEN_EXT = {"--python_out": [".py"], "--cpp_out": [".pp.hpp", ".pp.cpp"], "--cpp_full_out": [".ppf.hpp", ".ppf.cpp"],
            "--prophy_out": [".prophy"]}
@@ -183,13 +185,18 @@ class CompRun(object):
         if plan["patch"] is not None:
             self.trace.append("patch: %r" % plan["patch"])
         nchar = sum(len(v) for v in fs.files.values())
-        clock = StepClock(STEP_A + STEP_B * nchar)
+        clock = StepClock(STEP_A + STEP_B * nchar, cpu_budget_s=CPU_BUDGET_S)
         try:
             with clock:
                 nodes, exc, so, se = simworld.run_prophyc(fs, argv)
         except SimTimeout:
             self.steps += clock.steps
             self.count("hangs")
+            if clock.cpu_fired:
+                return self.v("C13", "hang", "C13/hang-in-native-code/%s/%s" % (syntax, self.hang_key()),
+                              "prophyc.main used more than %d s of CPU on %d input characters after only %d line events "
+                              "(time is spent inside native code, e.g. a regular expression): argv %s\n%s" %
+                              (CPU_BUDGET_S, nchar, clock.steps, argv, text[:600]))
             return self.v("C13", "hang", "C13/hang/%s/%s" % (syntax, self.hang_key()),
                           "prophyc.main exceeded %d line events on %d input characters: argv %s\n%s" %
                           (clock.budget, nchar, argv, text[:600]))
